@@ -31,6 +31,10 @@ impl Kanata {
             }
         }
         self.cur_keys.extend(self.layout.bm().keycodes());
+        // A key typed during a sequence in a hidden input mode is held but was never pressed at the
+        // OS, also after the sequence has ended.
+        self.cur_keys
+            .retain(|k| !self.keys_hidden_by_sequence.contains(k));
         // Build the key list the same way as when keys are pressed, so that the global overrides
         // also see (and replace) the keys of active unmod/unshift actions.
         apply_unmod_unshift_keys(
